@@ -442,9 +442,11 @@ __ymcw_add_b(dt_ymcw_t d, int n)
 	signed int aw = n / (signed int)DUWW_BDAYS_P_WEEK;
 	signed int ad = n % (signed int)DUWW_BDAYS_P_WEEK;
 
-	if (UNLIKELY(d.w >= DT_SATURDAY)) {
-		/* the 5-day arithmetic below needs a Mon-Fri start */
-		return __ymcw_add_d(d, __get_d_equiv((dt_dow_t)d.w, n));
+	if (UNLIKELY(d.w >= DT_SATURDAY || d.w == DT_MIRACLEDAY)) {
+		/* the 5-day arithmetic below needs a Mon-Fri start,
+		 * Sunday may be spelt 0 */
+		dt_dow_t wd = (dt_dow_t)(d.w ?: DT_SUNDAY);
+		return __ymcw_add_d(d, __get_d_equiv(wd, n));
 	}
 
 	/* a month/year step may have left a 5th W that doesn't exist */
